@@ -235,7 +235,7 @@ func init() {
 			"(R14.3) no function re-acquires, synchronously and on the same object, a non-reentrant mutex it holds (call graph: static callees, VTA targets, closures handed to library functions); " +
 			"(R14.4) the acquired-while-holding graph has no cycle; (R14.5) the shared routing/registry maps are only touched with their owner mutex held; " +
 			"(R14.6) no indefinitely blocking channel operation happens while a mutex is held, except at triaged sites; (R14.7) no process-exit construct is reachable from a remote request or a daemon goroutine, except at triaged sites; " +
-			"(R14.8) the nil result of a failed comma-ok map lookup or type assertion is not dereferenced on the path where the lookup failed (such a panic in the aggregator, a callback worker or the sync manager is outside every recovery interceptor). " +
+			"(R14.9) the HTTP relay's watch loop hands a new beacon to parked requests only while holding the lock under which a cancelled request removes (and then closes) its channel: a send after that close panics in a goroutine no server recovers; (R14.8) the nil result of a failed comma-ok map lookup or type assertion is not dereferenced on the path where the lookup failed (such a panic in the aggregator, a callback worker or the sync manager is outside every recovery interceptor). " +
 			"NOT decided: response time in seconds, nil-safety of every dereference (panics on the synchronous gRPC path are contained by R14.1), goroutine interleavings beyond lock order.",
 		RuleText: "one obligation per (rule, function/lock/field/site); distinct = distinct constructs; a construct is non-trivial when it involves a lock, a guarded field, a blocking channel operation or an exit construct",
 		Assumptions: []string{"two objects of one type share a lock identity; reent additionally requires the same access path of the owning object",
@@ -252,6 +252,7 @@ func runC14(c *Ctx) {
 	ruleBlockHeld(c, "R14.6", nil)
 	ruleExit(c, "R14.7")
 	ruleFailedLookupDeref(c, "R14.8")
+	ruleWaiterSendsUnderLock(c, "R14.9")
 }
 
 // R14.1 -------------------------------------------------------------------------------------------
@@ -671,4 +672,38 @@ func chanStable(v ssa.Value) string {
 
 func typeShort(t types.Type) string {
 	return strings.TrimPrefix(typeKey(t), modPath+"/")
+}
+
+// R14.9: parked HTTP requests (BeaconHandler.pending) are notified under pendingLk. A request that gives up takes the lock,
+// removes its channel from the list and closes it afterwards; the watcher may therefore only send to channels it took from
+// the list while still holding that lock.
+func ruleWaiterSendsUnderLock(c *Ctx, rule string) {
+	c.ranRules[rule] = true
+	e := c.lockEngine()
+	const lock = "handler/http.BeaconHandler.pendingLk"
+	n := 0
+	for _, fn := range c.P.SubjectFns() {
+		if isControlFn(fn) || fnPkgPath(fn) != modPath+"/handler/http" {
+			continue
+		}
+		forEachInstr(fn, func(_ *ssa.BasicBlock, _ int, in ssa.Instruction) {
+			snd, ok := in.(*ssa.Send)
+			if !ok {
+				return
+			}
+			fromPending := hasOrigin(Origins(snd.Chan), func(o Origin) bool { return o.Kind == "field" && strings.HasSuffix(o.Name, "BeaconHandler.pending") })
+			if !fromPending {
+				return
+			}
+			n++
+			held := false
+			if fl := e.fns[fn]; fl != nil {
+				if st := fl.at[in]; st != nil && st.mustHolds(lock) {
+					held = true
+				}
+			}
+			c.Ok(rule, fnShort(fn)+" notifies a parked request", shortPos(c.P, in), held, "send on a channel taken from BeaconHandler.pending with "+lock+" held")
+		})
+	}
+	c.Floor(rule, "sends to parked HTTP requests", n, 1)
 }
